@@ -222,6 +222,8 @@ impl TSim {
 
   pub fn spawn_shared(&self, fut: FutureObj<'static, ()>) {
     let mut st = self.st.lock().unwrap();
+    // wakes that happened before this spawn are ahead of it in the queue
+    self.absorb_woken(&mut st);
     let id = st.slots.len();
     st.slots.push(TSlot { fut: Some(fut), queued: true, done: false, polling: false, rewake: false });
     st.ready.push_back(id);
